@@ -1,3 +1,8 @@
+// NOT REGISTERED (no verdict comes from this file): CBMC cannot digest these harnesses on this image. With symbolic
+// (u64, f32 bits) each harness grew past 14 GB of memory; with a concrete float exponent, and even with a 12-bit palette
+// (u8 integer, 3 mantissa bits), symbolic execution of the UBig shift / compare / drop paths did not finish in 5 min,
+// while a fully concrete call takes 2 s.  Kept for the oracle and for native replay.
+//
 // Kani harnesses for integer/src/third_party/num_order.rs: NumOrd between UBig / IBig and f32 (both directions).
 // BOUNDED: the integer is built from a symbolic u64 / i64 (inline representation, |v| < 2^64); the float ranges over
 // all 2^32 bit patterns.
@@ -80,33 +85,31 @@ fn vk_no_code(o: Option<Ordering>) -> Option<i8> {
     }
 }
 
-/// one comparison, both directions, for the float with the given (concrete or symbolic) fields
-fn vk_no_check_ubig(a: u64, fneg: bool, eb: u32, frac: u32) {
-    let bits = ((fneg as u32) << 31) | (eb << 23) | frac;
+#[cfg_attr(kani, kani::proof)]
+#[cfg_attr(not(kani), test)]
+#[cfg_attr(kani, kani::unwind(4))]
+fn vk_int_num_order_ubig_f32() {
+    let a: u64 = any();
+    let bits: u32 = any();
     let f = f32::from_bits(bits);
     let v = UBig::from(a);
     let want = vk_no_oracle(false, a, bits);
     assert!(vk_no_code(v.num_partial_cmp(&f)) == want);
     assert!(vk_no_code(f.num_partial_cmp(&v)) == want.map(|c| -c));
-}
-
-#[cfg_attr(kani, kani::proof)]
-#[cfg_attr(not(kani), test)]
-#[cfg_attr(kani, kani::unwind(1))]
-fn vk_int_num_order_probe_e150() {
-    let a: u64 = any();
-    let fneg: bool = any();
-    let frac: u32 = any();
-    assume(frac < (1 << 23));
-    vk_no_check_ubig(a, fneg, 150, frac);
     cover();
 }
 
 #[cfg_attr(kani, kani::proof)]
 #[cfg_attr(not(kani), test)]
-#[cfg_attr(kani, kani::unwind(1))]
-fn vk_int_num_order_probe_concrete() {
-    let v = UBig::from(5u64);
-    assert!(v.num_partial_cmp(&2.5f32) == Some(Ordering::Greater));
+#[cfg_attr(kani, kani::unwind(4))]
+fn vk_int_num_order_ibig_f32() {
+    let x: i64 = any();
+    let bits: u32 = any();
+    let a = x.unsigned_abs();
+    let f = f32::from_bits(bits);
+    let v = IBig::from(x);
+    let want = vk_no_oracle(x < 0, a, bits);
+    assert!(vk_no_code(v.num_partial_cmp(&f)) == want);
+    assert!(vk_no_code(f.num_partial_cmp(&v)) == want.map(|c| -c));
     cover();
 }
